@@ -21,14 +21,17 @@ package jsonpatch
 //@   modifies nothing
 //@   let n = len(d.nodes)
 //@   let neg = options.SupportNegativeIndices
-//@   ensures[C01,C13] ok-iff: (err == nil) <==> idxRefOK(key, n, neg)
-//@   ensures[C01] value: err == nil ==> result.0 == d.nodes[idxRefVal(key, n)]
+//@   ensures[C01,C13] ok-iff: key != "" ==> ((err == nil) <==> idxRefOK(key, n, neg))
+//@   ensures[C01] value: key != "" && err == nil ==> result.0 == d.nodes[idxRefVal(key, n)]
+//@   ensures[C01] empty-token: key == "" ==> err == nil && result.0 == d.self
 //@   ensures[C01,C08] nil-on-error: err != nil ==> result.0 == nil
+//@   ensures[C04] child: childOK(result.0)
 //@   ensures[C08] attrs: !isTestFailed(err) && !isMissing(err) && !isCopyLimit(err)
 //@   ensures[C08] invalid-index: err != nil && atoiOK(key) ==> isInvalidIndex(err)
 
 //@ func (*partialArray).set
 //@   requires recv: d != nil && options != nil
+//@   requires args: allocated(d) && childOK(val)
 //@   requires exists: idxRefOK(key, len(d.nodes), options.SupportNegativeIndices)
 //@   modifies elems(d.nodes)
 //@   let n = len(d.nodes)
@@ -39,6 +42,7 @@ package jsonpatch
 
 //@ func (*partialArray).add
 //@   requires recv: d != nil && options != nil
+//@   requires args: allocated(d) && childOK(val) && aryParsed(d)
 //@   modifies d.nodes, elems(d.nodes)
 //@   let n = old(len(d.nodes))
 //@   let neg = options.SupportNegativeIndices
@@ -55,6 +59,7 @@ package jsonpatch
 
 //@ func (*partialArray).remove
 //@   requires recv: d != nil && options != nil
+//@   requires args: allocated(d) && aryParsed(d)
 //@   modifies d.nodes
 //@   let n = old(len(d.nodes))
 //@   let neg = options.SupportNegativeIndices
@@ -74,12 +79,15 @@ package jsonpatch
 //@ func (*partialDoc).get
 //@   requires recv: d != nil
 //@   modifies nothing
-//@   ensures[C01] nil-map: d.obj == nil ==> err != nil
-//@   ensures[C01,C13] ok-iff: d.obj != nil ==> ((err == nil) <==> key in d.obj)
-//@   ensures[C01] value: err == nil ==> result.0 == d.obj[key]
+//@   ensures[C01] nil-map: key != "" && d.obj == nil ==> err != nil
+//@   ensures[C01,C13] ok-iff: key != "" && d.obj != nil ==> ((err == nil) <==> key in d.obj)
+//@   ensures[C01] value: key != "" && err == nil ==> result.0 == d.obj[key]
+//@   ensures[C01] empty-token: key == "" ==> err == nil && result.0 == d.self
 //@   ensures[C01,C08] nil-on-error: err != nil ==> result.0 == nil
+//@   ensures[C04] child: childOK(result.0)
 //@   ensures[C08] attrs: !isTestFailed(err) && !isCopyLimit(err) && !isInvalidIndex(err)
 //@   ensures[C08] missing: d.obj != nil && err != nil ==> isMissing(err)
+//@   ensures[C08] no-missing-otherwise: d.obj == nil ==> !isMissing(err)
 
 //@ func (*partialDoc).set
 //@   requires recv: d != nil
@@ -261,3 +269,54 @@ package jsonpatch
 //@   ensures[C11] valid-ops: err == nil ==> forall j int :: 0 <= j && j < len(result.0) ==> validOp(result.0[j])
 //@   ensures[C11] accepts-iff: wf(buf) && kind(val(buf)) == KArr ==> ((err == nil) <==> (forall i int :: 0 <= i && i < jlen(val(buf)) ==> opShape(elem(val(buf), i))))
 //@   ensures[C11] non-array: wf(buf) && kind(val(buf)) != KArr && kind(val(buf)) != KNull ==> err != nil
+
+// ---- codec callbacks (called by the trusted encoder/decoder only) ----
+
+//@ func (*lazyNode).RedirectMarshalJSON
+//@   requires recv: n != nil
+//@   modifies nothing
+//@   ensures[C15] never-unknown: err == nil
+
+//@ func (*partialArray).RedirectMarshalJSON
+//@   requires recv: n != nil
+//@   modifies nothing
+//@   ensures[C15] ok: err == nil
+
+//@ func (*partialDoc).UnmarshalJSON
+//@   requires recv: n != nil && allocated(n) && n.obj == nil && wf(data)
+//@   requires unshared: forall m *lazyNode {m.doc} :: m.doc != n
+//@   ensures[C01] obj-iff: (err == nil && n.obj != nil) <==> kind(val(data)) == KObj
+//@   ensures[C01] null: kind(val(data)) == KNull ==> err == nil && n.obj == nil
+//@   ensures[C01] other: kind(val(data)) != KNull && kind(val(data)) != KObj ==> err != nil && n.obj == nil
+
+//@ func (*partialArray).UnmarshalJSON
+//@   requires recv: n != nil && allocated(n) && n.nodes == nil && wf(data)
+//@   requires unshared: forall m *lazyNode {m.ary} :: m.ary != n
+
+//@ func (*AccumulatedCopySizeError).Error
+//@   requires recv: a != nil
+//@   modifies nothing
+
+//@ func (*ArraySizeError).Error
+//@   requires recv: a != nil
+//@   modifies nothing
+
+//@ func NewAccumulatedCopySizeError
+//@   modifies nothing
+//@   ensures[C08,C12] fresh: result != nil && fresh(result) && result.limit == l && result.accumulated == a
+
+// ---- copying and walking ----
+
+//@ func deepCopy
+//@   requires options: options != nil
+//@   requires src: childOK(src)
+//@   modifies nothing
+//@   ensures[C01] nil: src == nil ==> result.0 == nil && result.1 == 0 && result.2 == nil
+//@   ensures[C01,C09] fresh-copy: src != nil && result.2 == nil ==> result.0 != nil && fresh(result.0) && result.0.which == eRaw && result.0.doc == nil && result.0.ary == nil && result.0.raw != nil && fresh(result.0.raw) && fresh(*result.0.raw) && wf(*result.0.raw) && nows(*result.0.raw)
+//@   ensures[C12] size: src != nil && result.2 == nil ==> result.1 == len(*result.0.raw) && result.1 >= 0
+//@   ensures[C08] attrs: !isTestFailed(result.2) && !isMissing(result.2) && !isCopyLimit(result.2) && !isInvalidIndex(result.2)
+//@   ensures[C01] nil-on-error: result.2 != nil ==> result.0 == nil
+
+//@ func decodePatchKey
+//@   modifies nothing
+//@   ensures[C01,C14] unescape: result == unescape(k)
